@@ -136,6 +136,50 @@ func concHist[T uint32 | uint64](w *tr.Writer, rng *rand.Rand, hid int, cfg Conf
 	return true
 }
 
+func bareReceiverStress[T uint32 | uint64](width, rounds int) {
+	for _, op := range []string{"or", "and", "andnot", "xor", "clone-or"} {
+		operand := newProvider[T](width, "ts")
+		for i := 0; i < 64; i++ {
+			operand.Add(T(i * 3))
+		}
+		stop := make(chan struct{})
+		done := make(chan struct{})
+		go func() {
+			defer close(done)
+			for i := 0; ; i++ {
+				select {
+				case <-stop:
+					return
+				default:
+				}
+				operand.Add(T(i % 197))
+				operand.Remove(T((i * 7) % 197))
+			}
+		}()
+		for r := 0; r < rounds; r++ {
+			bare := newProvider[T](width, "bm")
+			for i := 0; i < 40; i++ {
+				bare.Add(T(i * 5))
+			}
+			switch op {
+			case "or":
+				bare.Or(operand)
+			case "and":
+				bare.And(operand)
+			case "andnot":
+				bare.AndNot(operand)
+			case "xor":
+				bare.Xor(operand)
+			default:
+				bare.Clone().Or(operand)
+			}
+			_ = bare.Cardinality()
+		}
+		close(stop)
+		<-done
+	}
+}
+
 // Conc: free-running concurrent histories on two thread-safe wrappers.
 func Conc(args []string) {
 	fs := flag.NewFlagSet("idset conc", flag.ExitOnError)
@@ -151,6 +195,10 @@ func Conc(args []string) {
 	cfgs := AllConfigs()
 	ok := true
 	h := 0
+	// a bare set owned by one goroutine takes a thread-safe wrapper as operand while another goroutine keeps writing to
+	// that wrapper: no events, the race detector is the observer (the operand must be read under its own lock)
+	bareReceiverStress[uint32](32, 200)
+	bareReceiverStress[uint64](64, 200)
 	for ; h < *n && ok; h++ {
 		c := cfgs[rng.Intn(len(cfgs))]
 		c.ImplA, c.ImplB = "ts", "ts"
